@@ -714,6 +714,13 @@ class Rectangle(Shape):
         min_y = min(self._lower_coord.imag, self._upper_coord.imag)
         max_y = max(self._lower_coord.imag, self._upper_coord.imag)
 
+        if self.rotation != 0:
+            # The corners above are the corners before rotation: undo the
+            # rotation of the point (around the rectangle center) before
+            # comparing with them.
+            point = self.pos + Shape.calc_rotated_pos(
+                point - self.pos, -self.rotation)
+
         point_x = point.real
         point_y = point.imag
         if point_x < min_x:
